@@ -103,6 +103,7 @@ impl<'i> TryFrom<Handle<'i>> for Cow<'i, [u8]> {
 		match handle.0 {
 			Source::Slice(b) => Ok(Cow::Borrowed(b)),
 			Source::Reader(r) => {
+				vhit!(INPUT_COW_FROM_READER);
 				let mut r = r.rewind_and_take();
 				r.capture_to_end()?;
 				let (cursor, _) = r.into_inner();
@@ -132,10 +133,13 @@ impl<'i> From<Handle<'i>> for Input<'i> {
 				let source_eof = r.is_source_eof();
 				let (cursor, source) = r.into_inner();
 				if source_eof {
+					vhit!(INPUT_SLICE_FROM_READER_EOF);
 					Input::Slice(Cow::Owned(cursor.into_inner()))
 				} else if cursor.get_ref().is_empty() {
+					vhit!(INPUT_READER_BARE);
 					Input::Reader(source)
 				} else {
+					vhit!(INPUT_READER_CHAINED_PREFIX);
 					Input::Reader(Box::new(FusedReader::new(cursor).chain(source)))
 				}
 			}
